@@ -1,5 +1,6 @@
 """C02 - every record type's wire form round-trips and re-encodes byte-identically; decoding arbitrary
 octets either reports a format error or consumes exactly rdlen and is a fixed point."""
+import concurrent.futures as cf
 import json
 import os
 import random
@@ -199,9 +200,15 @@ def run(ctx):
         by_type.setdefault(it["ty"], []).append(it)
     jobs = []
     n_vec = {}
+    fresh_vs = {}   # per type: the base vector and (if any) one vector with a relative name
     for ty, its in sorted(by_type.items()):
         n_vec[ty] = len(its)
         for i, it in enumerate(its):
+            if it["k"] == "vec" and ty != "UNKNOWN":
+                if it.get("base"):
+                    fresh_vs.setdefault(ty, []).insert(0, [it["v"], bool(it.get("rel"))])
+                elif it.get("rel") and it.get("near") and not any(r for _, r in fresh_vs.get(ty, [])):
+                    fresh_vs.setdefault(ty, []).append([it["v"], True])
             job = {"tid": "%s#%d" % (ty, i), "ty": ty, "k": it["k"], "rel": it.get("rel", False)}
             if it["k"] == "vec":
                 job["v"] = it["v"]
@@ -244,6 +251,22 @@ def run(ctx):
             else:
                 judge(ctx, tcfg, traces, {x["tid"]: x for x in batch})
             batch, acc = [], 0
+    # registry order scenario, each order in a FRESH interpreter: the first lookup of every type in the
+    # process is in a class without implementation (HS), then its home class - and the reverse as control
+    fitems = [{"ty": ty, "vs": vs, "wire": stats["base_wires"][ty][0]} for ty, vs in sorted(fresh_vs.items())
+              if stats["base_wires"].get(ty)]
+    with cf.ThreadPoolExecutor(max_workers=2) as ex:
+        fres = list(ex.map(lambda o: c02_rdata.run_fresh(o, fitems), ("foreign-first", "home-first")))
+    ftraces = fres[0] + fres[1]
+    fmap = {tr["tid"]: {"tid": tr["tid"], "ty": tr["ty"], "k": "fresh", "order": tr["tid"].split(":")[1],
+                        "item": next(x for x in fitems if x["ty"] == tr["ty"])} for tr in ftraces}
+    ctx.extra["fresh_process_order_scenarios"] = len(ftraces)
+    ctx.log("driver: %d fresh-process lookup-order traces (2 new interpreters)" % len(ftraces))
+    account(ctx, ftraces, stats)
+    if quick:
+        held, heldmap = held + ftraces, dict(heldmap, **fmap)
+    else:
+        judge(ctx, tcfg, ftraces, fmap)
     # seeded random octets for every type and ~50 unknown type codes
     nrand = 180 if quick else 4000
     rjobs = []
